@@ -28,6 +28,11 @@ func convURL(fam string, i int) string {
 		return fmt.Sprintf("https://%s/zqs/%d/photos.html", pagerHost, i)
 	case "file":
 		return fmt.Sprintf("https://%s/zqs/view-%d.html", pagerHost, i)
+	case "datedfile":
+		// a story filed under /<year>/<month>/ with a file-name suffix pager: not a calendar page
+		return fmt.Sprintf("https://%s/zqs/2014/07/zqname_Part%d.html", pagerHost, i)
+	case "pathslash":
+		return fmt.Sprintf("https://%s/zqs/view/%d/", pagerHost, i)
 	default:
 		return fmt.Sprintf("https://%s/zqs/view?pg=%d", pagerHost, i)
 	}
@@ -43,8 +48,10 @@ func convHref(fam string, i int, r int) string {
 		return strings.TrimPrefix(abs, "https://"+pagerHost)
 	default:
 		switch fam {
-		case "pathmid", "pathmidext":
+		case "pathmid", "pathmidext", "pathslash":
 			return abs
+		case "datedfile":
+			return fmt.Sprintf("zqname_Part%d.html", i)
 		case "path":
 			return fmt.Sprintf("%d", i) // relative to /zqs/view/<k>
 		case "file":
@@ -217,6 +224,7 @@ func runPager(c Case, e *env) []Event {
 		pageURL = convURL(fam, k)
 		for i := 1; i <= n; i++ {
 			urlIndex[convURL(fam, i)] = i
+			urlIndex[strings.TrimSuffix(convURL(fam, i), "/")] = i // the finders trim a trailing slash
 		}
 		call = Event{"ev": "Call", "run": c.ID, "prop": e.prop, "c": map[string]interface{}{"kind": "conv", "n": n, "k": k, "fam": fam,
 			"sep": sep, "wrap": wrap, "deco": deco, "algo": algo, "labels": labels, "numbered": numbered,
